@@ -12,9 +12,15 @@ def opReq : Op → Req
   | .dedup r _ => r | .ignore r _ => r | .skip r _ => r | .trav r _ _ => r
   | .finish r => r | .finishErr r => r | .clear r => r
 
-/-- does the operation read / write a link tracker? -/
+/-- does the operation read / write the link tracker of its request's (current) scope?  (`DedupKey`
+moves the request's records out of its current scope …) -/
 def touches : Op → Bool
-  | .dedup _ _ => false | .skip _ _ => false | _ => true
+  | .skip _ _ => false | _ => true
+
+/-- (… and into the scope of the new key.) -/
+def joins (key : Option Key) : Op → Bool
+  | .dedup _ k => key == some k
+  | _ => false
 
 /-- effect of a tracker-touching operation on the tracker of its request's scope. -/
 def eff : Op → LinkTracker → LinkTracker
@@ -91,27 +97,17 @@ theorem finishTracking_trackerOf_other (p : PeerTracker) (r' r : Req) (hne : r' 
           PeerTracker.setScopeTracker, h', h, Option.some.injEq, hk, if_false]
         split <;> simp [aget_aset, aget_aerase, hk, hk']
 
-/-- every operation of another request, on this request's tracker. -/
-theorem step_trackerOf (p : PeerTracker) (o : Op) (r : Req) (hne : opReq o ≠ r) :
+def isDedup : Op → Bool
+  | .dedup _ _ => true
+  | _ => false
+
+/-- every operation of another request except `DedupKey`, on this request's tracker. -/
+theorem step_trackerOf (p : PeerTracker) (o : Op) (r : Req) (hne : opReq o ≠ r) (hnd : isDedup o = false) :
     (step p o).1.trackerOf r
       = if touches o = true ∧ aget p.dedupKeys (opReq o) = aget p.dedupKeys r then eff o (p.trackerOf r)
         else p.trackerOf r := by
   cases o with
-  | dedup r' k =>
-    simp only [step, touches, Bool.false_eq_true, false_and, if_false]
-    simp only [opReq] at hne
-    simp only [PeerTracker.trackerOf, PeerTracker.dedupKey, aget_aset, hne, if_false, PeerTracker.scopeTracker]
-    cases h : aget p.dedupKeys r with
-    | none => rfl
-    | some k0 =>
-      simp only
-      cases hk : aget p.alts k with
-      | some t => simp [hk]
-      | none =>
-        simp only [hk, Option.isSome_none, Bool.false_eq_true, if_false, aget_aset]
-        by_cases hkk : k = k0
-        · subst hkk; simp [hk]
-        · simp [hkk]
+  | dedup r' k => simp [isDedup] at hnd
   | skip r' n => simp [step, touches, PeerTracker.trackerOf, PeerTracker.skipFirstBlocks, PeerTracker.scopeTracker]
   | trav r' l b =>
     simp only [opReq] at hne
@@ -167,13 +163,13 @@ theorem finishTracking_skipFirst (p : PeerTracker) (r' : Req) :
 theorem step_sentCount (p : PeerTracker) (o : Op) (r : Req) (hne : opReq o ≠ r) :
     aget (step p o).1.sentCount r = aget p.sentCount r := by
   cases o <;> simp only [opReq] at hne <;>
-    simp [step, PeerTracker.dedupKey, PeerTracker.ignoreBlocks, PeerTracker.skipFirstBlocks, PeerTracker.traverse,
+    simp [step, setDedupKey_sentCount, PeerTracker.ignoreBlocks, PeerTracker.skipFirstBlocks, PeerTracker.traverse,
       finishTracking_sentCount, setTracker_sentCount, aget_aset, aget_aerase, hne]
 
 theorem step_skipFirst (p : PeerTracker) (o : Op) (r : Req) (hne : opReq o ≠ r) :
     aget (step p o).1.skipFirst r = aget p.skipFirst r := by
   cases o <;> simp only [opReq] at hne <;>
-    simp [step, PeerTracker.dedupKey, PeerTracker.ignoreBlocks, PeerTracker.skipFirstBlocks, PeerTracker.traverse,
+    simp [step, setDedupKey_skipFirst, PeerTracker.ignoreBlocks, PeerTracker.skipFirstBlocks, PeerTracker.traverse,
       finishTracking_skipFirst, setTracker_skipFirst, aget_aset, aget_aerase, hne]
 
 /-- the dedup-key map evolves by the operations alone. -/
@@ -199,7 +195,7 @@ theorem finishTracking_dedupKeys (p : PeerTracker) (r' x : Req) :
 theorem step_dedupKeys (p : PeerTracker) (o : Op) (x : Req) :
     aget (step p o).1.dedupKeys x = aget (dkStep p.dedupKeys o) x := by
   cases o with
-  | dedup r k => simp [step, dkStep, PeerTracker.dedupKey]
+  | dedup r k => simp [step, dkStep, setDedupKey_dedupKeys]
   | ignore r ls => simp [step, dkStep, PeerTracker.ignoreBlocks, setTracker_dedupKeys]
   | skip r n => simp [step, dkStep, PeerTracker.skipFirstBlocks]
   | trav r l b => simp [step, dkStep, traverse_dedupKeys]
@@ -241,10 +237,18 @@ theorem step_skipOf (p : PeerTracker) (o : Op) (r : Req) (hne : opReq o ≠ r) :
 
 theorem step_missOf (p : PeerTracker) (o : Op) (r : Req) (hne : opReq o ≠ r) :
     missOf (step p o).1 r = missOf p r := by
-  simp only [missOf, step_trackerOf p o r hne]
-  split
-  · rw [eff_missing o r hne]
-  · rfl
+  cases hd : isDedup o with
+  | true =>
+    cases o with
+    | dedup r' k' =>
+      simp only [opReq] at hne
+      simp only [missOf, step, (setDedupKey_other p r' r k' hne).1]
+    | _ => simp [isDedup] at hd
+  | false =>
+    simp only [missOf, step_trackerOf p o r hne hd]
+    split
+    · rw [eff_missing o r hne]
+    · rfl
 
 /-! ### lists of environment operations -/
 
@@ -278,7 +282,9 @@ theorem env_view (r : Req) (env : List Op) (h : NotMine r env) : ∀ p : PeerTra
 operation is by a request whose dedup key (tracked through the operations from the map `dk`) differs. -/
 def EnvScopes (r : Req) (key : Option Key) : List (Req × Key) → List Op → Prop
   | _, [] => True
-  | dk, o :: os => opReq o ≠ r ∧ (touches o = true → aget dk (opReq o) ≠ key) ∧ EnvScopes r key (dkStep dk o) os
+  | dk, o :: os =>
+    opReq o ≠ r ∧ (touches o = true → aget dk (opReq o) ≠ key) ∧ joins key o = false ∧
+      EnvScopes r key (dkStep dk o) os
 
 instance decEnvScopes (r : Req) (key : Option Key) : ∀ (dk : List (Req × Key)) (env : List Op),
     Decidable (EnvScopes r key dk env)
@@ -300,7 +306,7 @@ theorem EnvScopes_notMine {r : Req} {key : Option Key} : ∀ {dk : List (Req × 
     intro h o' ho'
     rcases List.mem_cons.mp ho' with rfl | ho'
     · exact h.1
-    · exact ih h.2.2 o' ho'
+    · exact ih h.2.2.2 o' ho'
 
 theorem dkStep_agree {q : PeerTracker} {dk : List (Req × Key)} {r : Req} (h : Agree q dk r) (o : Op) :
     Agree (step q o).1 (dkStep dk o) r := by
@@ -316,29 +322,42 @@ theorem env_other (r : Req) (key : Option Key) (env : List Op) :
   induction env with
   | nil => intro q dk hk ha _; exact ⟨by simp [runFrom], by simpa [runFrom] using hk, by simpa [runFrom] using ha⟩
   | cons o os ih =>
-    intro q dk hk ha ⟨ho, hsc, hrest⟩
+    intro q dk hk ha ⟨ho, hsc, hj, hrest⟩
     rw [runFrom_fst_cons]
     have hk' : aget (step q o).1.dedupKeys r = key := by rw [step_dedupKeys_self q o r ho, hk]
     obtain ⟨h1, h2, h3⟩ := ih (step q o).1 (dkStep dk o) hk' (dkStep_agree ha o) hrest
     refine ⟨?_, h2, h3⟩
-    rw [h1, step_trackerOf q o r ho]
-    split
-    · rename_i hc
-      exact absurd (by rw [← ha _ ho, hc.2, hk]) (hsc hc.1)
-    · rfl
+    rw [h1]
+    cases hd : isDedup o with
+    | true =>
+      cases o with
+      | dedup r' k' =>
+        simp only [opReq] at ho
+        have hold : aget q.dedupKeys r' ≠ aget q.dedupKeys r := by
+          rw [ha _ ho, hk]; exact hsc rfl
+        have hnew : some k' ≠ aget q.dedupKeys r := by
+          rw [hk]; intro e; simp [joins, ← e] at hj
+        exact (setDedupKey_other q r' r k' ho).2 hold hnew
+      | _ => simp [isDedup] at hd
+    | false =>
+      rw [step_trackerOf q o r ho hd]
+      split
+      · rename_i hc
+        exact absurd (by rw [← ha _ ho, hc.2, hk]) (hsc hc.1)
+      · rfl
 
 theorem EnvScopes_drop {r : Req} {key : Option Key} : ∀ {dk : List (Req × Key)} {a b : List Op},
     EnvScopes r key dk (a ++ b) → EnvScopes r key (a.foldl dkStep dk) b := by
   intro dk a
   induction a generalizing dk with
   | nil => intro b h; exact h
-  | cons o os ih => intro b h; exact ih h.2.2
+  | cons o os ih => intro b h; exact ih h.2.2.2
 
 theorem EnvScopes_append {r : Req} {key : Option Key} : ∀ {dk : List (Req × Key)} {a b : List Op},
     EnvScopes r key dk (a ++ b) → EnvScopes r key dk a := by
   intro dk a
   induction a generalizing dk with
   | nil => intro _ _; trivial
-  | cons o os ih => intro b h; exact ⟨h.1, h.2.1, ih h.2.2⟩
+  | cons o os ih => intro b h; exact ⟨h.1, h.2.1, h.2.2.1, ih h.2.2.2⟩
 
 end GS.C03L
